@@ -236,9 +236,34 @@ def dict_programs(rng, n):
         out.append(r.choice([b"", b"\x80\x02", b"\x80\x04"]) + build() + b".")
     return out
 
+def numeric_collision_programs():
+    """one number in every representation a pickle has for it (INT / LONG text, LONG1, BININT forms where they fit,
+    BINFLOAT when exact), every ordered pair as two dict keys, in the three dict-building forms: integers and floats
+    of both signs at and beyond the int64 / uint64 / 2^53 edges - CPython keeps ONE entry per value"""
+    import pickle
+    out = []
+    zs = []
+    for m in (2**53, 2**53 + 2, 2**62, 2**63 - 1024, 2**63, 2**63 + 2**11, 2**64, 2**64 + 2**12, 2**70, 2**100, 2**1023, 3 * 2**80, 5, 0):
+        zs += [m, -m]
+    for z in zs:
+        forms = [b"L%dL\n" % z, pickle.dumps(z, 2)[2:-1]]
+        if -2**31 <= z < 2**31: forms.append(b"J" + struct.pack("<i", z))
+        if abs(z) < 2**63 or z == -2**63: forms.append(b"I%d\n" % z)
+        try:
+            f = float(z)
+            if int(f) == z: forms.append(b"G" + struct.pack(">d", f))
+        except OverflowError:
+            pass
+        for a in forms:
+            for b_ in forms:
+                if a is b_: continue
+                out += [b"}" + a + b"K\x01s" + b_ + b"K\x02s.", b"(" + a + b"K\x01" + b_ + b"K\x02d.", b"}(" + a + b"K\x01" + b_ + b"K\x02u."]
+    return out
+
 @check("C09")
 def c09(res, rng, tier):
     progs = kept_corpus("C09") + dict_programs(rng.fork("dicts"), 3000 if tier == "quick" else 50000) + sharing_matrix(("dict",))
+    progs += numeric_collision_programs()
     stats, lines, impl = compare_with_cpython(res, "C09", progs, "dict-building program")
     # the non-transitive corner, which CPython 3 cannot express (a Python-2 str equal to both the str and the
     # bytes of the same content): every order of the three kinds in every dict-building opcode; the reference
